@@ -689,7 +689,10 @@ func New() *FunctionGenerator {
 	fg.AddOpImpl("=", true, equal)
 	fg.AddOp("!=", false, func(st funcGen.Stack[Value], a Value, b Value) (Value, error) {
 		eq, err := equal.Calc(st, a, b)
-		return !(eq.(Bool)), err
+		if err != nil {
+			return nil, err
+		}
+		return !(eq.(Bool)), nil
 	})
 	fg.AddOp("~", false, func(st funcGen.Stack[Value], a Value, b Value) (Value, error) {
 		if list, ok := b.(*List); ok {
